@@ -19,6 +19,17 @@ Proof.
   simpl. intros [H|[H|[]]]; congruence.
 Qed.
 
+Definition cnt (c : nat) (L : list lentry) : nat :=
+  length (filter (fun e => Nat.eqb (le_client e) c) L).
+Definition sh1 (m : lkind) : nat := match m with LSh => 1 | LEx => 0 end.
+
+Lemma cnt_cons_same c t r x L :
+  cnt c ({| le_client := c; le_time := t; le_before := r; le_after := x |} :: L) = S (cnt c L).
+Proof. unfold cnt. simpl. now rewrite Nat.eqb_refl. Qed.
+
+Lemma cnt_cons_other c e L : le_client e <> c -> cnt c (e :: L) = cnt c L.
+Proof. intros H. unfold cnt. simpl. destruct (Nat.eqb_spec (le_client e) c); [contradiction|reflexivity]. Qed.
+
 Section Ph7.
 Variables (fl : N) (b : prog) (c : nat).
 
@@ -28,53 +39,63 @@ Definition mk_entry (t : nat) (r x : bytes) : lentry :=
 (* program / descriptor / flock entry / status / contents X / register R / log L *)
 Inductive ph7 : prog -> option fdesc -> option lkind -> cstatus ->
                 bytes -> bytes -> list lentry -> Prop :=
-| p7_start X R L : ph7 (client_prog fl b) None None SIdle X R L
-| p7_lock X R L : ph7 (lock_stage fl (klock fl b)) (Some (fresh_fd fl)) None SIdle X R L
+| p7_start X R L : cnt c L = 0 -> ph7 (client_prog fl b) None None SIdle X R L
+| p7_lock X R L : cnt c L = 0 ->
+    ph7 (lock_stage fl (klock fl b)) (Some (fresh_fd fl)) None SIdle X R L
 | p7_trunc m X R L :
     lock_mode_of_flags fl = Some m -> X = R -> (m = LSh -> has_entry c R L) ->
+    cnt c L = sh1 m ->
     ph7 (trunc_stage fl (k0 b)) (Some (fresh_fd fl)) (Some m) SIdle X R L
 | p7_truncfail fd X R L :
-    lock_mode_of_flags fl = Some LSh -> X = R -> has_entry c R L ->
+    lock_mode_of_flags fl = Some LSh -> X = R -> has_entry c R L -> cnt c L = 1 ->
     ph7 (trunc_fail_prog (Ret ResErr)) (Some fd) (Some LSh) SIdle X R L
 | p7_ret m X R L :
     lock_mode_of_flags fl = Some m -> X = start_contents fl R ->
-    (m = LSh -> X = R /\ has_entry c R L) ->
+    (m = LSh -> X = R /\ has_entry c R L) -> cnt c L = sh1 m ->
     ph7 (after_open b) (Some (fresh_fd fl)) (Some m) SIdle X R L
 | p7_cs m b' fd X R L :
     lock_mode_of_flags fl = Some m -> io_only b' -> fd_acc fd = fd_acc (fresh_fd fl) ->
     outcome2 (run_body b' no_faults 0 X fd) = call_spec fl b R ->
-    (m = LSh -> X = R /\ has_entry c R L) ->
+    (m = LSh -> X = R /\ has_entry c R L) -> cnt c L = sh1 m ->
     ph7 (bind b' close_part) (Some fd) (Some m) SInCS X R L
 | p7_closing m x fd X R L :
     lock_mode_of_flags fl = Some m -> (x, X) = call_spec fl b R ->
-    (m = LSh -> X = R /\ has_entry c R L) ->
+    (m = LSh -> X = R /\ has_entry c R L) -> cnt c L = sh1 m ->
     ph7 (close_prog (Ret x)) (Some fd) (Some m) SClosing X R L
-| p7_close_idle fd X R L : ph7 (Do OClose (fun _ => Ret ResErr)) (Some fd) None SIdle X R L
+| p7_close_idle fd X R L : cnt c L <= 1 ->
+    ph7 (Do OClose (fun _ => Ret ResErr)) (Some fd) None SIdle X R L
 | p7_close x fd X R L :
-    done_entry fl b c x L -> ph7 (Do OClose (fun _ => Ret x)) (Some fd) None SClosing X R L
-| p7_done_idle X R L : ph7 (Ret ResErr) None None SIdle X R L
-| p7_done x X R L : done_entry fl b c x L -> ph7 (Ret x) None None SClosing X R L.
+    done_entry fl b c x L -> cnt c L = 1 ->
+    ph7 (Do OClose (fun _ => Ret x)) (Some fd) None SClosing X R L
+| p7_done_idle X R L : cnt c L <= 1 -> ph7 (Ret ResErr) None None SIdle X R L
+| p7_done x X R L : done_entry fl b c x L -> cnt c L = 1 -> ph7 (Ret x) None None SClosing X R L.
 
 (* what the other clients' steps may change without disturbing this client *)
 Lemma ph7_frame p fd l st X R L X' R' L' :
   ph7 p fd l st X R L ->
   (l <> None -> X' = X /\ R' = R) ->
-  (L' = L \/ exists e, L' = e :: L) ->
+  (L' = L \/ exists e, L' = e :: L /\ le_client e <> c) ->
   ph7 p fd l st X' R' L'.
 Proof.
   intros H Hh HL.
   assert (Hhe : forall r, has_entry c r L -> has_entry c r L').
-  { intros r He. destruct HL as [->|[e ->]]; [exact He|now apply has_entry_mono]. }
+  { intros r He. destruct HL as [->|[e [-> _]]]; [exact He|now apply has_entry_mono]. }
   assert (Hde : forall x, done_entry fl b c x L -> done_entry fl b c x L').
-  { intros x He. destruct HL as [->|[e ->]]; [exact He|now apply done_entry_mono]. }
-  destruct H; try (destruct Hh as [-> ->]; [discriminate|]); try now constructor.
-  - apply (p7_trunc m); auto.
-  - apply p7_truncfail; auto.
-  - apply (p7_ret m); auto. intros E. destruct (H1 E). auto.
-  - apply (p7_cs m); auto. intros E. destruct (H3 E). auto.
-  - apply (p7_closing m); auto. intros E. destruct (H1 E). auto.
-  - apply p7_close. auto.
-  - apply p7_done. auto.
+  { intros x He. destruct HL as [->|[e [-> _]]]; [exact He|now apply done_entry_mono]. }
+  assert (Hc : cnt c L' = cnt c L).
+  { destruct HL as [->|[e [-> Hne]]]; [reflexivity|now apply cnt_cons_other]. }
+  destruct H; try (destruct Hh as [-> ->]; [discriminate|]).
+  - apply p7_start. congruence.
+  - apply p7_lock. congruence.
+  - apply (p7_trunc m); auto. congruence.
+  - apply p7_truncfail; auto. congruence.
+  - apply (p7_ret m); auto; [|congruence]. intros E. destruct (H1 E). auto.
+  - apply (p7_cs m); auto; [|congruence]. intros E. destruct (H3 E). auto.
+  - apply (p7_closing m); auto; [|congruence]. intros E. destruct (H1 E). auto.
+  - apply p7_close_idle. congruence.
+  - apply p7_close; auto. congruence.
+  - apply p7_done_idle. congruence.
+  - apply p7_done; auto. congruence.
 Qed.
 
 End Ph7.
@@ -222,12 +243,12 @@ Proof.
         apply cph7_advance; fold i fl b;
         rewrite (ghost_reg_at _ _ _ _ _ Hnd1), (ghost_lin_at _ _ _ _ _ Hnd1) by (rewrite Hlt; exact Hnd1);
         rewrite Hlt, <- Hl; simpl; rewrite <- Hs.
-      * rewrite (Hok eq_refl). apply p7_lock.
-      * rewrite (Herr ltac:(discriminate)), <- Hf. apply p7_done_idle.
-      * rewrite (Herr ltac:(discriminate)), <- Hf. apply p7_done_idle.
-      * rewrite (Herr ltac:(discriminate)), <- Hf. apply p7_done_idle.
+      * rewrite (Hok eq_refl). apply p7_lock. now rewrite <- HL.
+      * rewrite (Herr ltac:(discriminate)), <- Hf. apply p7_done_idle. rewrite <- HL, H. lia.
+      * rewrite (Herr ltac:(discriminate)), <- Hf. apply p7_done_idle. rewrite <- HL, H. lia.
+      * rewrite (Herr ltac:(discriminate)), <- Hf. apply p7_done_idle. rewrite <- HL, H. lia.
     + split; [|split; [intros _; rewrite HX; reflexivity|intros E; congruence]].
-      unfold cont; simpl. fold (cont s i). rewrite <- Hp, <- Hf, <- Hl, <- Hs, <- HX, <- HR, <- HL. apply p7_start.
+      unfold cont; simpl. fold (cont s i). rewrite <- Hp, <- Hf, <- Hl, <- Hs, <- HX, <- HR, <- HL. now apply p7_start.
   - (* flock *)
     assert (Ho : isopen (fds (st_os s) c) = true) by (rewrite <- Hf; reflexivity).
     unfold lock_stage, flock_step. simpl.
@@ -236,7 +257,7 @@ Proof.
     { split; [|split; [intros _; unfold cont; simpl; now rewrite HX|intros E; congruence]].
       apply cph7_advance; fold i fl b.
       rewrite (ghost_reg_at _ _ _ _ _ Hnd1 Hnd1), (ghost_lin_at _ _ _ _ _ Hnd1 Hnd1), <- Hl, <- Hf, <- Hs.
-      apply p7_close_idle. }
+      apply p7_close_idle. rewrite <- HL, H. lia. }
     destruct (can_grant m0 c (ltab (st_os s) i)) eqn:Hg.
     + assert (Hnd2 : NoDup (map fst ((c, m0) :: drop c (ltab (st_os s) i))))
         by (apply nodup_of_ok, ltab_ok_grant; [apply Htab|exact Hg]).
@@ -250,18 +271,19 @@ Proof.
       simpl ltab. rewrite !upd_same, locked_cons_same, <- Hl, <- Hf, <- Hs, <- HR, <- HL.
       fold (cont s i). rewrite <- HX.
       destruct m0.
-      * apply (p7_trunc _ _ _ LSh); auto. intros _.
-        exists (mk_entry c (now s) R R). repeat split; auto. now left.
+      * apply (p7_trunc _ _ _ LSh); auto.
+        -- intros _. exists (mk_entry c (now s) R R). repeat split; auto. now left.
+        -- unfold mk_entry. rewrite cnt_cons_same, H. reflexivity.
       * apply (p7_trunc _ _ _ LEx); auto. discriminate.
     + destruct eintr.
       * split; [|split; [intros _; unfold cont; simpl; now rewrite HX|intros E; congruence]].
         apply cph7_advance; fold i fl b.
         rewrite (ghost_reg_at _ _ _ _ _ Hnd1 Hnd1), (ghost_lin_at _ _ _ _ _ Hnd1 Hnd1), <- Hl, <- Hf, <- Hs.
         fold (cont s i). rewrite <- HX, <- HR, <- HL.
-        exact (p7_lock fl b c X R L).
+        exact (p7_lock fl b c X R L H).
       * split; [|split; [intros _; rewrite HX; reflexivity|intros E; congruence]].
         unfold cont; simpl. fold (cont s i). rewrite <- Hp, <- Hf, <- Hl, <- Hs, <- HX, <- HR, <- HL.
-        exact (p7_lock fl b c X R L).
+        exact (p7_lock fl b c X R L H).
   - (* ftruncate, or directly the return mark *)
     unfold trunc_stage. destruct (has_flag fl truncate_cond_mask) eqn:Ht.
     + rewrite (os_io_exact i c (OFtruncate (N.to_nat truncate_size)) _ eintr (fresh_fd fl) eq_refl (eq_sym Hf)).
@@ -272,13 +294,13 @@ Proof.
         apply cph7_advance; fold i fl b. simpl ltab. simpl files. simpl fds.
         rewrite (ghost_reg_at _ _ _ _ _ Hnd1), (ghost_lin_at _ _ _ _ _ Hnd1) by exact Hnd1.
         simpl ltab. rewrite <- Hl, !upd_same, <- Hs, <- HR, <- HL.
-        simpl. apply p7_truncfail; auto.
+        simpl. apply p7_truncfail; auto; exact H2.
       * rewrite (exclusive_writable fl H).
         split; [|split; [intros E; now elim E|intros _ E; exfalso; apply E; simpl; now rewrite <- Hl]].
         apply cph7_advance; fold i fl b. simpl ltab. simpl files. simpl fds.
         rewrite (ghost_reg_at _ _ _ _ _ Hnd1), (ghost_lin_at _ _ _ _ _ Hnd1) by exact Hnd1.
         simpl ltab. rewrite <- Hl, !upd_same, <- Hs, <- HR, <- HL.
-        simpl. apply (p7_ret _ _ _ LEx); auto; [|discriminate].
+        simpl. apply (p7_ret _ _ _ LEx); auto; try exact H2; [|discriminate].
         unfold start_contents. now rewrite Ht, H0.
     + unfold k0, after_open. simpl. rewrite ?os_mark. unfold cont. simpl. fold (cont s i).
       rewrite !upd_same, <- HX.
@@ -294,7 +316,7 @@ Proof.
     split; [|split; [intros _; unfold cont; simpl; now rewrite HX|intros E; discriminate E]].
     apply cph7_advance; fold i fl b. simpl ltab. simpl files. simpl fds.
     rewrite (ghost_reg_at _ _ _ _ _ Hnd1), (ghost_lin_at _ _ _ _ _ Hnd1) by (simpl; rewrite upd_same; exact Hnd2).
-    simpl ltab. rewrite !upd_same, locked_drop_same, <- Hl, <- Hf, <- Hs. apply p7_close_idle.
+    simpl ltab. rewrite !upd_same, locked_drop_same, <- Hl, <- Hf, <- Hs. apply p7_close_idle. rewrite <- HL, H2. lia.
   - (* the locking call returns *)
     unfold after_open. simpl. rewrite ?os_mark. unfold cont. simpl. fold (cont s i).
     rewrite !upd_same, <- HX.
@@ -349,8 +371,10 @@ Proof.
       destruct m; apply p7_close.
       * destruct (H1 eq_refl) as [E1 [e [Hin [Hc [Hb Ha]]]]].
         exists e. repeat split; auto. rewrite Ha, Hb. rewrite E1 in H0. exact H0.
+      * exact H2.
       * change (content_of (files (st_os s) i)) with (cont s i). rewrite <- HX.
         exists (mk_entry c (now s) R X). split; [now left|]. split; [reflexivity|exact H0].
+      * unfold mk_entry. rewrite cnt_cons_same, H2. reflexivity.
     + intros _. unfold cont. simpl. now rewrite HX.
     + intros E _. unfold cont. simpl. fold (cont s i). rewrite <- HX. now rewrite <- H0.
   - (* close on the failure path *)
@@ -365,7 +389,7 @@ Proof.
     split; [|split; [intros _; unfold cont; simpl; now rewrite HX|intros E; discriminate E]].
     apply cph7_advance; fold i fl b. simpl ltab. simpl files. simpl fds. fold lt2.
     rewrite (ghost_reg_at _ _ _ _ _ Hnd1), (ghost_lin_at _ _ _ _ _ Hnd1) by exact Hnd2.
-    simpl ltab. fold lt2. rewrite Hl2, <- Hl, !upd_same, <- Hs. apply p7_done_idle.
+    simpl ltab. fold lt2. rewrite Hl2, <- Hl, !upd_same, <- Hs, <- HL. now apply p7_done_idle.
   - (* close *)
     assert (Ho : isopen (fds (st_os s) c) = true) by (rewrite <- Hf; reflexivity).
     rewrite (os_close _ _ _ _ _ Ho).
@@ -382,7 +406,7 @@ Proof.
   - (* returned *)
     split; [|split; [intros _; rewrite HX; reflexivity|intros E; discriminate E]].
     unfold cont; simpl. fold (cont s i). rewrite <- Hp, <- Hf, <- Hl, <- Hs, <- HX, <- HR, <- HL.
-    apply p7_done_idle.
+    now apply p7_done_idle.
   - split; [|split; [intros _; rewrite HX; reflexivity|intros E; discriminate E]].
     unfold cont; simpl. fold (cont s i). rewrite <- Hp, <- Hf, <- Hl, <- Hs, <- HX, <- HR, <- HL.
     now apply p7_done.
@@ -484,9 +508,10 @@ Lemma reg_after_not_ex lb la r x : lb <> Some LEx -> reg_after lb la r x = r.
 Proof. destruct lb as [[|]|]; try reflexivity. intros H. now elim H. Qed.
 
 Lemma lin_after_mono c t lb la r x l :
-  lin_after c t lb la r x l = l \/ exists e, lin_after c t lb la r x l = e :: l.
+  lin_after c t lb la r x l = l \/
+  exists e, lin_after c t lb la r x l = e :: l /\ le_client e = c.
 Proof.
-  destruct lb as [[|]|], la as [[|]|]; simpl; auto; right; eexists; reflexivity.
+  destruct lb as [[|]|], la as [[|]|]; simpl; auto; right; eexists; split; reflexivity.
 Qed.
 
 Lemma inv07_run_client cfg f d eintr s :
@@ -515,7 +540,8 @@ Proof.
         split; [now apply Hown2|]. rewrite Hg2. now apply reg_after_not_ex.
       * destruct (Hg1 _ Hi) as [-> [-> _]]. auto.
     + destruct (Nat.eq_dec (c_ino (cfg c)) i) as [Hi|Hi].
-      * rewrite Hi, Hg3. apply lin_after_mono.
+      * rewrite Hi, Hg3. destruct (lin_after_mono d (now s) lb la (reg s i) (cont s' i) (lin s i))
+          as [E|[e [E Hc']]]; [now left|right]. exists e. split; [exact E|congruence].
       * destruct (Hg1 _ Hi) as [_ [_ ->]]. now left.
   - intros j Hno. destruct (Nat.eq_dec j i) as [->|Hj].
     + assert (Hla : la <> Some LEx) by apply Hno.
@@ -611,7 +637,7 @@ Lemma inv07_init cfg f : inv07 cfg f (init_state cfg f).
 Proof.
   split.
   - apply inv06_init.
-  - intros c. unfold cph7. simpl. apply p7_start.
+  - intros c. unfold cph7. simpl. now apply p7_start.
   - intros i _. reflexivity.
   - intros i. simpl. constructor.
   - intros i e [].
